@@ -287,8 +287,35 @@ static aligned_t lf_task(void *arg)
     return 0;
 }
 
+/* ---- extension H (LR mode): dump with node addresses (arena ordinals), the pool and every worker's hazard state ---- */
+static int lr_dump_on = 0;
+static long arena_ord(void *p) { return p ? (long)(((char *)p - arena_base) / 16) + 1 : 0; }
+static void lr_dump(void)
+{
+    qlfqueue_node_t *n = lfq->head; long i = 0;
+    printf(" |");
+    for (; n && i < 100000; n = n->next, i++) printf(" %ld", arena_ord(n));
+    if (i >= 100000) printf(" CYCLE");
+    printf(" |");
+    n = lfq->head ? lfq->head->next : NULL;
+    for (i = 0; n && i < 100000; n = n->next, i++) printf(" %lu", (unsigned long)(uintptr_t)n->value);
+    printf(" | T %ld | P %ld :", arena_ord(lfq->tail), (long)(arena_used / 16) + 1);
+    for (fl_t *f = arena_free; f; f = f->next) printf(" %ld", arena_ord(f));
+    printf(" | W");
+    for (qthread_shepherd_id_t s = 0; s < qthread_num_shepherds(); ++s)
+        for (qthread_worker_id_t j = 0; j < qlib->nworkerspershep; ++j) {
+            qthread_worker_t *w = &qlib->shepherds[s].workers[j];
+            printf(" %ld %ld :", arena_ord((void *)w->hazard_ptrs[0]), arena_ord((void *)w->hazard_ptrs[1]));
+            for (unsigned k = 0; k < w->hazard_free_list.count; k++) printf(" %ld", arena_ord(w->hazard_free_list.freelist[k].ptr));
+            printf(" ;");
+        }
+    printf("\n");
+}
+/* ---- end extension H ---- */
+
 static void lf_dump(void)
 {
+    if (lr_dump_on) { lr_dump(); return; }     /* extension H */
     /* position of tail on the chain from head, then the values behind the dummy */
     qlfqueue_node_t *n = lfq->head; long pos = -1, i = 0;
     for (; n && i < 100000; n = n->next, i++) if (n == lfq->tail) { pos = i; break; }
@@ -315,7 +342,7 @@ static void run_lf(char *line)
     char *parts[MAXT + 2]; int np = 0;
     while (s && np < MAXT + 1) parts[np++] = next_bar(&s);
     int cap = 0, hi = 0;
-    sscanf(hdr, "LF %d %d", &cap, &hi);
+    sscanf(hdr + 2, "%d %d", &cap, &hi);      /* "LF" or (extension H) "LR" */
     int nt = np - 1; char *sched = parts[np - 1];
     if (nt + 1 > (int)qthread_num_shepherds()) { printf("F CONFIG\n"); return; }
     for (int t = 0; t < nt; t++) parse_prog(&progs[t], parts[t]);
@@ -621,6 +648,7 @@ int main(int argc, char **argv)
         } else if (!strncmp(line, "HS", 2)) run_hs(line);
         else if (!strncmp(line, "SW", 2)) run_sw(line);
         else if (!strncmp(line, "LF", 2)) run_lf(line);
+        else if (!strncmp(line, "LR", 2)) { lr_dump_on = 1; run_lf(line); lr_dump_on = 0; }     /* extension H */
         else if (!strncmp(line, "M4", 2)) run_m4(line);
         else if (!strncmp(line, "DA", 2)) run_da();
         else if (!strncmp(line, "DQ", 2)) run_dq(line);
